@@ -700,7 +700,7 @@ def hist_walk(walk, rec, stats):
                     d = {'name': w.filename(n), 'via': via, 'PATH (same string for the whole walk)': 'd1' + ''.join(
                              ':d%d' % (k + 2) for k in range(len(w.dirs) - 1)) + ' under ' + w.root,
                          'PATH_given_by': 'env argument' if walk['envGiven'] else 'os.environ',
-                         'layout_at_the_time_of_the_call': fs,
+                         'layout_at_the_time_of_the_call': copy.deepcopy(fs),
                          'previous_answer_for_this_name': {-1: 'never looked up', 0: 'none'}.get(s['last'], 'd%d' % s['last']),
                          'want': exp, 'history': hist_text(steps[:i + 1]), 'size': i + 1}
                     d.update(extra)
@@ -1437,9 +1437,9 @@ def run(ctx):
             differs = r['lex'] != r['want']
             ndiff += differs
             if ctx.quick() and not differs:
-                tr = (HIST_VIAS[crng.randrange(3)],)          # one transport, drawn per row
+                tr = ('spawn', ('run', 'popen')[crng.randrange(2)])    # spawn and one more, drawn per row
             else:
-                tr = HIST_VIAS                                # all three
+                tr = HIST_VIAS                                         # all three
             cwd_row(r, cworld, tr, rec, st_cwd, n)
         t_cwd = time.time() - t0
         fails_cwd = rec.total() - fails_split - fails_argv - fails_which - fails_cfg - fails_hist
@@ -1472,8 +1472,8 @@ def run(ctx):
                 'representative characters, a seeded sample through real pty / popen children; every PATH layout on which() '
                 'and through real children; every configuration row through a real child; every Lookup transition of the dumped '
                 'history graphs (layout x previous answers x name) on which() inside walks replayed in one process, a seeded sample '
-                'of them through spawn / run / PopenSpawn; every cwd path of the table through a real child (quick: one transport '
-                'per path, all three where textual normalisation would lead elsewhere).  non-trivial = distinct command '
+                'of them through spawn / run / PopenSpawn; every cwd path of the table through real children (quick: spawn and one of '
+                'run / PopenSpawn per path, all three where textual normalisation would lead elsewhere).  non-trivial = distinct command '
                 'lines of split cases in which some argument contains a character that needs protection (whitespace, '
                 'quote, backslash)',
         'exhaustive': True,
